@@ -16,6 +16,13 @@ from .spec import SpecMixin
 from . import solve
 
 REPO = os.environ.get("VERIF_REPO", "/repo")
+# a path starting with "@site/" names a module of an installed dependency: it is read, like the repository's own files, from the
+# source that the repository's interpreter imports (site-packages of /venv) on every run
+SITE = os.environ.get("VERIF_SITE") or (sorted(__import__("glob").glob("/venv/lib/python3*/site-packages")) or ["/nonexistent"])[0]
+
+
+def source_path(path):
+    return os.path.join(SITE, path[len("@site/"):]) if path.startswith("@site/") else os.path.join(REPO, path)
 
 LIB_MODULES = {"np": "np", "numpy": "np", "pandas": "pd", "numba": "numba", "math": "math", "scipy": "scipy", "pd": "pd", "dask": "dask"}
 
@@ -23,7 +30,7 @@ LIB_MODULES = {"np": "np", "numpy": "np", "pandas": "pd", "numba": "numba", "mat
 class ModInfo:
     def __init__(self, path):
         self.path = path
-        with open(os.path.join(REPO, path)) as f:
+        with open(source_path(path)) as f:
             self.src = f.read()
         self.tree = ast.parse(self.src)
         self.funcs = {}  # qualified name -> FunctionDef
